@@ -4,6 +4,8 @@
 cd "$(dirname "$0")/.."
 if ! git -C /repo diff --quiet; then echo "/repo has uncommitted changes, refusing"; exit 2; fi
 fail=0
+# evidence is rewritten by every run: keep the clean tree's evidence aside
+ev=$(mktemp -d); cp -a evidence/. "$ev"/ 2>/dev/null
 for d in seeded/${1:-}*/; do
   n=$(basename "$d"); pid=$(jq -r .property "$d/meta.json")
   patch=$(ls "$d"/*.diff | head -1)
@@ -14,6 +16,7 @@ for d in seeded/${1:-}*/; do
   line=$(echo "$out" | grep -m1 "^VIOLATION")
   if [ $rc -eq 1 ] && [ -n "$line" ]; then echo "$n: caught by $pid — $line"; else echo "$n: MISSED by $pid (rc=$rc)"; fail=1; fi
 done
+cp -a "$ev"/. evidence/ 2>/dev/null; rm -rf "$ev"
 # regenerate the translated files for the clean tree
 python3 tools/gen.py /repo >/dev/null 2>&1
 exit $fail
